@@ -45,6 +45,8 @@ def servers():
     # (an OpenSSH banner: only recognised software gets recommendations, and the one for group exchange is what the ossh2048 target suppresses)
     S['gex4096'] = mk(b'SSH-2.0-OpenSSH_8.0', ['curve25519-sha256', 'diffie-hellman-group-exchange-sha256', 'diffie-hellman-group-exchange-sha1'],
                       ['aes128-ctr'], gex={'style': 'roundup', 'moduli': [4096]})
+    # a server advertising names the database does not know (text reports end with a paragraph naming them)
+    S['unknown'] = mk(b'SSH-2.0-Generic_1.0', ['curve25519-sha256', 'experimental-kex-v7@example.com'], ['aes128-ctr', 'future-cipher@example.com'])
     S['ossh2048'] = mk(b'SSH-2.0-OpenSSH_8.0', ['curve25519-sha256', 'diffie-hellman-group-exchange-sha256'], ['aes128-ctr'],
                        gex={'style': 'openssh', 'moduli': [2048]})
     return S
@@ -304,6 +306,56 @@ def report_strip_ansi(x):
     return report.strip_ansi(x)
 
 
+def family_leg(ck, S):
+    """Options that speak of every target (-4, -6, both in either order, -p) reach each target of a list exactly as they reach a single target:
+    names that resolve to addresses of one family only, or of both, are audited - or turned away - in a list as they are alone."""
+    import socket
+    names = {'v4only.example': [(socket.AF_INET, '10.9.0.4')], 'v6only.example': [(socket.AF_INET6, '2001:db8::6')],
+             'dual.example': [(socket.AF_INET6, '2001:db8::46'), (socket.AF_INET, '10.9.0.46')]}
+    servers = {('10.9.0.4', 22): S['plain'], ('2001:db8::6', 22): S['terrapin'], ('2001:db8::46', 22): S['rsa1024'], ('10.9.0.46', 22): S['rsa4096']}
+    order = ['v6only.example', 'v4only.example', 'dual.example']
+    scs, meta = [], []
+    for fam in ([], ['-4'], ['-6'], ['-4', '-6'], ['-6', '-4']):
+        singles = runner.run_many([{'argv': ['-n', '--skip-rate-test'] + fam + [h], 'servers': servers, 'resolver': names} for h in order])
+        if any(r.get('harness_error') or r.get('hang') for r in singles):
+            raise common.Machinery('family leg: single-target runs failed')
+        for threads in (1, 3):
+            for lst in (order, list(reversed(order))):
+                scs.append({'argv': ['-n', '--skip-rate-test'] + fam + ['--threads', str(threads), '-T', '{tmp}/targets.txt'], 'servers': servers, 'resolver': names,
+                            'files': {'targets.txt': '\n'.join(lst) + '\n'}, 'fresh': True})
+                meta.append((fam, threads, lst, {h: r for h, r in zip(order, singles)}))
+    for (fam, threads, lst, singles), sc, r in zip(meta, scs, runner.run_many(scs)):
+        ck.evaluated()
+        if r.get('harness_error'):
+            raise common.Machinery('family leg: %r' % r.get('harness_error'))
+        replay = {'options': fam, 'threads': threads, 'targets': lst, 'argv': sc['argv'], 'exit': r.get('exit'), 'stdout': (r.get('stdout') or '')[-3000:]}
+        if r.get('hang'):
+            ck.violation('run-did-not-complete options=%s' % ''.join(fam), 'the run never ended', replay)
+            continue
+        labels = ['%s:22' % h for h in lst]
+        got = {}
+        for b_ in multi.split_text(r['stdout']):
+            lab = multi.label_of_block(b_, labels) or next((l for l in labels if l.rsplit(':', 1)[0] in b_), None)
+            if lab is not None and lab not in got:
+                got[lab] = b_
+        ok = True
+        for h, lab in zip(lst, labels):
+            ref = singles[h]
+            ref_report = ref.get('exit') in (0, 2, 3)
+            blk = got.get(lab)
+            has_report = blk is not None and '(gen) banner:' in blk
+            if blk is None or has_report != ref_report or (ref_report and multi.strip_target_line(blk).rstrip('\n') != multi.normalise_single(ref['stdout'])):
+                ck.violation('isolation options-not-applied-per-target options=%s' % (''.join(fam) or 'none'),
+                             'target %s in the list %r under %r, %d thread(s): %s; alone under the same options it %s'
+                             % (h, lst, fam, threads, 'no block' if blk is None else ('a report' if has_report else 'an error'),
+                                'is audited (status %s)' % ref.get('exit') if ref_report else 'is turned away (status %s)' % ref.get('exit')), replay)
+                ok = False
+                break
+        if ok:
+            ck.cov['traces_validated_against_impl'] += 1
+            ck.nontrivial(('family', tuple(fam), threads, tuple(lst)))
+
+
 def schedule_leg(ck, tier, S, rnd):
     """Two targets on two worker threads, the threads driven through every schedule SshSched.tla generates (quick: one preemption,
     thorough: two - every pair of positions "A has done i network operations, B has done j" is visited): each target's JSON
@@ -319,23 +371,29 @@ def schedule_leg(ck, tier, S, rnd):
                                        hostkeys={'ssh-rsa': peers.rsa_blob(4096), 'ssh-ed25519': peers.ed25519_blob()})
     # (a, b, same host?, preemptions in the quick tier)
     pairs = [('cert', 'plainrsa', False, 2), ('plainrsa', 'cert', False, 1), ('rsa1024', 'rsa4096', False, 1), ('terrapin', 'strict', False, 1), ('rsa1024', 'plainrsa', True, 1),
-             ('cert', 'rsa4096', True, 1)]
+             ('cert', 'rsa4096', True, 1),
+             # text reports (they end with paragraphs the JSON document does not have: unknown names, notes): compared block by block
+             ('unknown', 'plainrsa', False, 1, 'text'), ('plainrsa', 'unknown', False, 1, 'text')]
     if tier == 'thorough':
-        pairs += [('gex1024', 'rsa4096', False, 2), ('rsa4096', 'gex1024', True, 2), ('ossh2048', 'cert', False, 2)]
+        pairs += [('gex1024', 'rsa4096', False, 2), ('rsa4096', 'gex1024', True, 2), ('ossh2048', 'cert', False, 2), ('terrapin', 'unknown', False, 2, 'text'),
+                  ('unknown', 'ossh2048', True, 2, 'text')]
     total = 0
-    for a, b, same_host, qp in pairs:
+    for pr in pairs:
+        a, b, same_host, qp = pr[:4]
+        text = len(pr) > 4
+        vf = '-n' if text else '-j'
         npre = qp if tier == 'quick' else 2
         h0, h1 = multi.ip_of(0), (multi.ip_of(0) if same_host else multi.ip_of(1))
         p0, p1 = 22, (2222 if same_host else 22)
         labels = ['%s:%d' % (h0, p0), '%s:%d' % (h1, p1)]
         servers = {(h0, p0): cert[a], (h1, p1): cert[b]}
-        base = {'argv': ['-j', '--skip-rate-test', '--threads', '2', '-T', '{tmp}/targets.txt'], 'servers': servers,
+        base = {'argv': [vf, '--skip-rate-test', '--threads', '2', '-T', '{tmp}/targets.txt'], 'servers': servers,
                 'files': {'targets.txt': '%s:%d\n%s:%d\n' % (h0, p0, h1, p1)}, 'observe': True, 'alarm': 60}
-        refs = runner.run_many([{'argv': ['-j', '--skip-rate-test', '%s:%d' % (h, p)], 'servers': servers} for h, p in ((h0, p0), (h1, p1))])
+        refs = runner.run_many([{'argv': [vf, '--skip-rate-test', '%s:%d' % (h, p)], 'servers': servers} for h, p in ((h0, p0), (h1, p1))])
         probe = runner.run_many([multi.scheduled(base, [[0, -1], [1, -1]], labels)])[0]
         if any(r.get('harness_error') or r.get('hang') or r.get('exit') not in (0, 2, 3) for r in refs) or probe.get('harness_error') or not probe.get('sched'):
             raise common.Machinery('schedule leg: reference runs failed for %r' % ((a, b),))
-        ref_docs = [json.loads(r['stdout']) for r in refs]
+        ref_docs = [multi.normalise_single(r['stdout']) if text else json.loads(r['stdout']) for r in refs]
         ops = [max(1, probe['sched']['ops'].get(l, 0)) for l in labels]
         plans, covered = multi.schedule_plans(ck, ops, npre)
         if npre >= 2:
@@ -355,21 +413,28 @@ def schedule_leg(ck, tier, S, rnd):
                 ck.violation('run-did-not-complete scheduled', 'targets %r under the schedule %r: the run never ended' % ((a, b), pl), replay)
                 continue
             forfeits += (r.get('sched') or {}).get('forfeits', 0)
-            try:
-                doc = json.loads(r['stdout'])
-            except ValueError:
-                ck.violation('multi-json-unparsable scheduled', 'stdout of a scheduled two-target JSON run is not JSON', replay)
-                continue
-            got = {el.get('target'): el for el in doc} if isinstance(doc, list) else {}
+            if text:
+                got = {}
+                for b_ in multi.split_text(r['stdout']):
+                    lab = multi.label_of_block(b_, labels)
+                    if lab is not None and lab not in got:
+                        got[lab] = multi.strip_target_line(b_).rstrip('\n')
+            else:
+                try:
+                    doc = json.loads(r['stdout'])
+                except ValueError:
+                    ck.violation('multi-json-unparsable scheduled', 'stdout of a scheduled two-target JSON run is not JSON', replay)
+                    continue
+                got = {el.get('target'): el for el in doc} if isinstance(doc, list) else {}
             ok = True
             for i, lab in enumerate(labels):
                 if lab not in got:
                     ck.violation('block-missing scheduled', 'no array element for target %s under the schedule %r' % (lab, pl), replay)
                     ok = False
                 elif got[lab] != ref_docs[i]:
-                    diff = _json_diff(ref_docs[i], got[lab])
+                    diff = _text_diff(ref_docs[i], got[lab]) if text else _json_diff(ref_docs[i], got[lab])
                     ck.violation('isolation scheduled %s%s' % (_channel(diff), ' same-host' if same_host else ''),
-                                 'target %s (%s, next to %s) under the schedule %r: JSON differs from the single-target result at %s' % (lab, (a, b)[i], (b, a)[i], pl, diff[:3]), replay)
+                                 'target %s (%s, next to %s) under the schedule %r: %s differs from the single-target result at %s' % (lab, (a, b)[i], (b, a)[i], pl, 'the block' if text else 'JSON', diff[:3]), replay)
                     ok = False
             if ok:
                 ck.cov['traces_validated_against_impl'] += 1
@@ -495,6 +560,7 @@ def run(tier):
     granular_leg(ck)
     exception_leg(ck)
     verbose_leg(ck, S)
+    family_leg(ck, S)
     schedule_leg(ck, tier, S, rnd)
     verdicts = multi.validate(ck, traces)
     for m, tr, (ok, info) in zip(tmeta, traces, verdicts):
